@@ -89,6 +89,7 @@ type State struct {
 	heapAllHavoc int
 	recvd   map[string]bool // channels a value was received from on this path
 	recvdT  []*Term         // the same channels as terms
+	lockSnaps map[string]*State // lock_protocol: state right after the last acquire of a local mutex
 }
 
 func (st *State) clone() *State {
@@ -130,6 +131,12 @@ func (st *State) clone() *State {
 		n.ghostv[k] = v
 	}
 	n.recvdT = append([]*Term{}, st.recvdT...)
+	if st.lockSnaps != nil {
+		n.lockSnaps = map[string]*State{}
+		for k, v := range st.lockSnaps {
+			n.lockSnaps[k] = v
+		}
+	}
 	n.recvd = make(map[string]bool, len(st.recvd))
 	for k, v := range st.recvd {
 		n.recvd[k] = v
